@@ -385,7 +385,13 @@ func corrupt(t *verifsim.Tape, f, v string) (string, string) {
 			return v + "a{2,1}", "bad-repeat"
 		}
 	case "json":
-		switch t.Draw("corr", 5) {
+		switch t.Draw("corr", 8) {
+		case 5:
+			return v + []string{"}", "]", " ]", "}}", "] x"}[t.Draw("closer", 5)], "stray-closer"
+		case 6:
+			return v + " " + v, "second-value"
+		case 7:
+			return v + ",", "trailing-comma-after-value"
 		case 0:
 			return "{" + v, "unclosed-object"
 		case 1:
